@@ -285,6 +285,9 @@ func (rd *remoteDelivery) connectionForDomain(ctx context.Context, domain string
 	}
 
 	if err := conn.Mail(ctx, rd.mailFrom, mailOpts); err != nil {
+		// The connection is not tracked in rd.connections yet, Close of the
+		// delivery will not release the destination limit for it.
+		rd.rt.limits.ReleaseDest(domain)
 		conn.Close()
 		return nil, err
 	}
